@@ -322,6 +322,7 @@ func run(c *mc.Ctx) {
 	selfCheck(c)
 	corners(c)
 	constantSeams(c)
+	residueClasses(c)
 	values(c)
 	vectorLanes(c)
 	c.Require("mul", 1000000)
@@ -388,6 +389,143 @@ func constantSeams(c *mc.Ctx) {
 		s := pool.Get().(*scratch)
 		defer pool.Put(s)
 		cheapUnary(chk{w, s}, es[i])
+	})
+}
+
+// ---------------------------------------------------------------------------
+// residue-class representations: the SAME small value (0, 1, 2, 19, -1, -19) written as v + k*p for every k the
+// headroom admits, with the multiples of p distributed over the limbs uniformly and with a unit carried between each
+// pair of neighbouring limbs; plus the unreduced zeros and small values the library itself produces with Add (which
+// never reduces): x + Neg(x), (a-a)+(b-b), x + x - 2x.  Predicates and encoders must see through the representation.
+// (Added after the seeded change C04-r2-1 - an IsZero that compares raw limbs with 0 and with p only - passed the
+// limb corners, none of which is a non-trivial representation of zero.)
+func residueClasses(c *mc.Ctx) {
+	var pl [nl]uint64
+	for i := 0; i < nl; i++ {
+		pl[i] = 1<<radix[i] - 1
+	}
+	pl[0] = 1<<radix[0] - 19
+	maxK := uint64(7)
+	if !is64 {
+		maxK = 2
+	}
+	var es []*el
+	for k := uint64(0); k <= maxK; k++ {
+		for _, v := range []int64{0, 1, 2, 19, -1, -19} {
+			base := make([]uint64, nl)
+			ok := true
+			for i := 0; i < nl; i++ {
+				base[i] = k * pl[i]
+			}
+			if v >= 0 {
+				base[0] += uint64(v)
+			} else if base[0] >= uint64(-v) {
+				base[0] -= uint64(-v)
+			} else {
+				ok = false // -1 with k = 0 has no non-negative limb form
+			}
+			if !ok {
+				continue
+			}
+			es = append(es, mkEl(base))
+			// move one unit of limb i+1 down into limb i (value unchanged)
+			for i := 0; i+1 < nl; i++ {
+				if base[i+1] == 0 {
+					continue
+				}
+				l := append([]uint64{}, base...)
+				l[i+1]--
+				l[i] += 1 << radix[i]
+				es = append(es, mkEl(l))
+			}
+			// and the wrap-around: one unit of 2^255 = 19 from the top limb into limb 0
+			if base[nl-1] >= 1<<radix[nl-1] {
+				l := append([]uint64{}, base...)
+				l[nl-1] -= 1 << radix[nl-1]
+				l[0] += 19
+				es = append(es, mkEl(l))
+			}
+		}
+	}
+	// keep only elements inside the documented input headroom
+	var in []*el
+	for _, e := range es {
+		fits := true
+		for i := 0; i < nl; i++ {
+			if e.l[i] > limbLimit(bNone, i) && limbLimit(bNone, i) != 0 {
+				fits = false
+			}
+			if is64 && e.l[i] >= 1<<54 {
+				fits = false
+			}
+			if !is64 && e.l[i] >= 3<<radix[i] {
+				fits = false
+			}
+		}
+		if fits {
+			in = append(in, e)
+		}
+	}
+	in = dedup(in)
+	c.Rep.Extra["residue_class_elements"] = len(in)
+	c.Par("residue-classes", len(in), func(w *mc.W, i int) {
+		s := pool.Get().(*scratch)
+		defer pool.Put(s)
+		cheapUnary(chk{w, s}, in[i])
+	})
+	// library-produced unreduced forms
+	full := fullCorners()
+	// x is taken from the weakly reduced corners only ({0, 1, 2^r-1, 2^r}), so that x + Neg(x) (limbs < 2^(r+1)+small)
+	// stays inside the documented input headroom of every routine it is fed to
+	cs := dedup(sub(full, "reduced corners", 0, 1, 2, 3).all())
+	c.Rep.Extra["library_zero_forms_from"] = len(cs)
+	c.Par("library-zero-forms", len(cs), func(w *mc.W, i int) {
+		s := pool.Get().(*scratch)
+		defer pool.Put(s)
+		ck := chk{w, s}
+		x := cs[i]
+		cas := func() interface{} { return map[string]string{"x_limbs": x.hex()} }
+		var n, z, t field.Element
+		n.Neg(&x.fe)
+		z.Add(&x.fe, &n) // x + (-x): an unreduced zero
+		zl := field.VerifLimbs(&z)
+		ze := mkEl(zl)
+		if ze.v.Sign() != 0 {
+			w.Fail("Add/Neg", "x + Neg(x) is not zero", cas())
+			return
+		}
+		ck.val("ToBytes", &z, zero, bNone, cas)
+		if z.IsNegative() != 0 {
+			w.Fail("IsNegative", "IsNegative(x + Neg(x)) = 1", cas())
+		}
+		if z.IsZero() != 1 {
+			w.Fail("IsZero", fmt.Sprintf("IsZero(x + Neg(x)) = 0 for x limbs %s (sum limbs %x)", x.hex(), zl), cas())
+		}
+		var zero0 field.Element
+		if z.Equal(&zero0) != 1 || zero0.Equal(&z) != 1 {
+			w.Fail("Equal", "x + Neg(x) does not compare equal to zero", cas())
+		}
+		// x + x - 2x through Sub (reduces) stays zero as well; (x - x) + (x - x)
+		t.Sub(&x.fe, &x.fe)
+		t.Add(&t, &t)
+		if t.IsZero() != 1 {
+			w.Fail("IsZero", "IsZero((x-x)+(x-x)) = 0", cas())
+		}
+		// BatchInvert must treat such a zero as zero (documented: zero inputs are left unchanged / skipped)
+		one1, seven := new(field.Element).One(), new(field.Element)
+		_, _ = seven.SetBytes([]byte{7, 0, 0, 0, 0, 0, 0, 0, 0, 0, 0, 0, 0, 0, 0, 0, 0, 0, 0, 0, 0, 0, 0, 0, 0, 0, 0, 0, 0, 0, 0, 0})
+		zz := z
+		field.BatchInvert([]*field.Element{one1, &zz, seven})
+		var inv7 field.Element
+		inv7.Invert(new(field.Element).Set(func() *field.Element {
+			e := new(field.Element)
+			_, _ = e.SetBytes([]byte{7, 0, 0, 0, 0, 0, 0, 0, 0, 0, 0, 0, 0, 0, 0, 0, 0, 0, 0, 0, 0, 0, 0, 0, 0, 0, 0, 0, 0, 0, 0, 0})
+			return e
+		}()))
+		if seven.Equal(&inv7) != 1 {
+			w.Fail("BatchInvert/unreduced-zero", "BatchInvert([1, x+Neg(x), 7]) did not invert the 7", cas())
+		}
+		w.Eval("library-zero-forms", true)
 	})
 }
 
